@@ -70,7 +70,8 @@ class C06(Prop):
         "C06.empty_set_fallback", "C06.installed_uses_base", "C06.installed_final",
         "C06.history_last_write_wins", "C06.lastWrite_eq", "C06.calls_do_not_write", "C06.history_observations",
         "SSet.contains_eq_admits", "SSet.contains_installed", "SSet.filterChain_ok", "SSet.spec_filter_some",
-        "SSet.spec_filter_none", "SSet.preOk",
+        "SSet.spec_filter_none", "SSet.preOk", "C06.set_filter_is_filter_of_strings",
+        "C06.spec_filter_fallback_of_strings", "C06.contains_eq_policy_of_strings",
     ]
     rule = ("per sampled case: a specifier / a set of 0-4 clauses (string-built or from Specifier objects with their own "
             "overrides) x a candidate list of 0-8 spelled versions (mixed str/Version objects, shuffled, with and without "
@@ -79,7 +80,14 @@ class C06(Prop):
             "as index list into the input (identity), contains incl. installed=, .prereleases; non-trivial = no exception")
     trusted = ["frozenset iteration order (passed to the model from the running interpreter)",
                "generator objects: list(filter(...)) consumed eagerly; laziness is not modelled"]
-    partial = []
+    partial = [
+        "generator laziness of filter() is not modelled: results are compared after list(); an exception raised "
+        "mid-iteration and the items yielded before it are not distinguished",
+        "theorems over arbitrary model values keep the hypothesis CmpOk (no member raises on the candidate); the "
+        "*_of_strings theorems discharge it through C03 for string-built sets/specifiers and parsed candidates",
+        "history_last_write_wins is a statement about the model's state machine (calls are pure by construction); that "
+        "the implementation's reading methods do not write is observed by the correspondence/law `history` only",
+    ]
     budget = {"quick": (10000, 2500), "thorough": (200000, 50000)}
 
     # ------------------------------------------------------------ correspondence
